@@ -590,7 +590,10 @@ class PKey:
         cipher = self._CIPHER_TABLE[encryption_type]["cipher"]
         keysize = self._CIPHER_TABLE[encryption_type]["keysize"]
         mode = self._CIPHER_TABLE[encryption_type]["mode"]
-        salt = unhexlify(b(saltstr))
+        try:
+            salt = unhexlify(b(saltstr))
+        except base64.binascii.Error:
+            raise SSHException("Can't parse DEK-info salt in private key file")
         key = util.generate_key_bytes(md5, salt, password, keysize)
         decryptor = Cipher(
             cipher(key), mode(salt), backend=default_backend()
